@@ -19,6 +19,10 @@ type Tamper struct {
 	Path      string // path inside the CBOR content ("" with Kind "substitute-*")
 	Kind      string // value, copy-other-recipient, copy-other-sender, substitute-other-recipient, substitute-other-round
 	Variant   int
+	// Early: the altered message is not sent in its turn but AHEAD of its round, as the very first delivery of the
+	// session (built from the cheater's message of the honest baseline run, which is what it would send later); the
+	// genuine message is then not sent any more
+	Early bool
 }
 
 // Applied records what the tamperer actually did.
@@ -27,12 +31,17 @@ type Applied struct {
 	LeafKind string
 	Generic  string
 	Reached  map[string]bool // recipients that were sent an altered message
+	// Start is to be called once all parties exist, before the first delivery (early alterations)
+	Start func()
 }
 
 // Install hooks the tamperer into the network. other is an (already finished) honest run of the same
 // session, used as the source of "a value copied from another message".
 func (t Tamper) Install(n *sim.Net, other *sim.Net) *Applied {
-	ap := &Applied{Reached: map[string]bool{}}
+	ap := &Applied{Reached: map[string]bool{}, Start: func() {}}
+	if t.Early {
+		return t.installEarly(n, other, ap)
+	}
 	prev := n.OnEmit
 	n.OnEmit = func(from *sim.Party, m *sim.Msg) []*sim.Msg {
 		if prev != nil {
@@ -61,6 +70,45 @@ func (t Tamper) Install(n *sim.Net, other *sim.Net) *Applied {
 			ap.Reached[string(m.To)] = true
 		}
 		return []*sim.Msg{out}
+	}
+	return ap
+}
+
+// installEarly: see Tamper.Early.
+func (t Tamper) installEarly(n *sim.Net, other *sim.Net, ap *Applied) *Applied {
+	src := find(other, t.Cheater, t.Round, t.Broadcast, t.To, "")
+	if src == nil || other.Party(t.Cheater) == nil {
+		return ap
+	}
+	alt := t.apply(sim.Clone(src), other.Party(t.Cheater), other, ap)
+	if alt == nil {
+		return ap
+	}
+	ap.Start = func() {
+		var early []*sim.Delivery
+		for _, p := range n.Parties {
+			if p.Name == t.Cheater || !alt.IsFor(p.ID) {
+				continue
+			}
+			n.Inject(t.Cheater, sim.Clone(alt), p.Name, false)
+			early = append(early, n.Pending[len(n.Pending)-1])
+			n.Pending = n.Pending[:len(n.Pending)-1]
+			ap.Reached[p.Name] = true
+			ap.Count++
+		}
+		n.Pending = append(early, n.Pending...)
+	}
+	prev := n.OnEmit
+	n.OnEmit = func(from *sim.Party, m *sim.Msg) []*sim.Msg {
+		if prev != nil {
+			if r := prev(from, m); r != nil {
+				return r
+			}
+		}
+		if from.Name == t.Cheater && int(m.RoundNumber) == t.Round && m.Broadcast == t.Broadcast && (m.Broadcast || t.To == "" || string(m.To) == t.To) {
+			return []*sim.Msg{} // already sent, ahead of time
+		}
+		return nil
 	}
 	return ap
 }
